@@ -17,9 +17,11 @@
    651 known (C06-confirm-after-completing): swap confirmed after the completing timeout cleaned up: application terminated, real allocation orphaned
    652 known (C06-swap-real-removed): placeholder keeps the link to a real ask the shim removed while the swap was in flight
    653 known (C06-inflight-resized): resources of the real ask raised above the placeholder while the swap was in flight; usage grows at the confirmation
-   690 placeholder counters do not change the way the model's writers change them *)
+   690 placeholder counters do not change the way the model's writers change them
+   691 timer firing / release / swap decision: the observed post-state or announcements differ from what the
+       component model Core/Gang.v computes from the observed pre-state *)
 From Coq Require Import List ZArith NArith Bool.
-From YK Require Import Base.Res Core.Obs Core.GangPred.
+From YK Require Import Base.Res Core.Obs Core.GangPred Core.MaxApps Core.Gang.
 Import ListNotations.
 Open Scope N_scope.
 
@@ -328,6 +330,117 @@ Definition counters_step (pre : ostate) (st : ostep) : list N :=
         if ok then [] else [690]
     end) (s_apps (st_obs st)).
 
+(* ---- correspondence with the component model Core/Gang.v ---- *)
+Definition proj_obj (inreq inalloc : bool) (o : oalloc) : gal :=
+  mkG (oa_key o) (oa_tg o) (oa_res o) (oa_node o) (oa_ph o) (oa_allocated o) (oa_released o) (oa_preempted o)
+      (oa_release o) inreq inalloc.
+Definition has_key (l : list oalloc) (k : N) : bool := existsb (fun x => oa_key x =? k) l.
+Definition proj06 (s : ostate) (ap : oapp) (hard : bool) : gst :=
+  mkGS (ap_state ap) hard (ap_phdata ap)
+       (map (fun o => proj_obj true (has_key (ap_allocs ap) (oa_key o)) o) (ap_requests ap) ++
+        map (proj_obj false true) (filter (fun o => negb (has_key (ap_requests ap) (oa_key o))) (ap_allocs ap)))
+       (ap_phtimer ap) (ap_statetimer ap)
+       (flat_map (fun n => map (fun al => (on_id n, oa_key al)) (filter (fun al => oa_app al =? ap_id ap) (on_allocs n))) (s_nodes s))
+       (fz (queue_alloc s (ap_queue ap))) (fz (user_usage s (ap_user ap) (ap_queue ap))) (fun n => fz (node_alloc s n)).
+
+Definition live_obj (o : gal) : bool := g_req o || g_alloc o.
+Definition obj_same (a b : gal) : bool :=
+  (g_key a =? g_key b) && Bool.eqb (g_alloc a) (g_alloc b) && Bool.eqb (g_req a) (g_req b) &&
+  Bool.eqb (g_allocated a) (g_allocated b) && Bool.eqb (g_released a) (g_released b) && (g_link a =? g_link b) &&
+  (negb (g_alloc a) || (g_node a =? g_node b)).
+Definition objs_sub (a b : list gal) : bool :=
+  forallb (fun o => negb (live_obj o) || existsb (obj_same o) b) a.
+Definition pd_sub (a b : phdata) : bool :=
+  forallb (fun e => existsb (fun f => (fst e =? fst f) && (pd_count e =? pd_count f)%Z && (pd_replaced e =? pd_replaced f)%Z &&
+                                      (pd_timedout e =? pd_timedout f)%Z) b) a.
+Definition pairs_sub (a b : list (N * N)) : bool := forallb (fun p => existsb (fun q => (fst p =? fst q) && (snd p =? snd q)) b) a.
+Definition types3 : list tid := [1; 2; 3].
+Definition gst_same (nodes : list N) (M V : gst) : bool :=
+  (gs_state M =? gs_state V) && Bool.eqb (gs_phtimer M) (gs_phtimer V) && Bool.eqb (gs_statetimer M) (gs_statetimer V) &&
+  pd_sub (gs_pd M) (gs_pd V) && pd_sub (gs_pd V) (gs_pd M) &&
+  objs_sub (gs_objs M) (gs_objs V) && objs_sub (gs_objs V) (gs_objs M) &&
+  pairs_sub (gs_nodes M) (gs_nodes V) && pairs_sub (gs_nodes V) (gs_nodes M) &&
+  eq_on types3 (gs_queue M) (gs_queue V) && eq_on types3 (gs_user M) (gs_user V) &&
+  forallb (fun n => eq_on types3 (gs_nodeuse M n) (gs_nodeuse V n)) nodes.
+
+(* announcements of the step that concern the application *)
+Definition obs_rel (a : N) (evs : list oevent) : list (N * N) :=
+  flat_map (fun e => match e with ERelease k a' ty => if a' =? a then [(k, ty)] else [] | _ => [] end) evs.
+Definition obs_new (a : N) (evs : list oevent) : list (N * N) :=
+  flat_map (fun e => match e with ENewAlloc k a' n _ _ => if a' =? a then [(k, n)] else [] | _ => [] end) evs.
+Definition mod_rel (evs : list gout) : list (N * N) := flat_map (fun e => match e with GRel k ty => [(k, ty)] | _ => [] end) evs.
+Definition mod_new (evs : list gout) : list (N * N) := flat_map (fun e => match e with GNew k n => [(k, n)] | _ => [] end) evs.
+
+Definition model_ops (pre : ostate) (st : ostep) (a : N) : option (list gop) :=
+  match find_app pre a with
+  | None => None
+  | Some ap0 =>
+      match st_op st with
+      | OpFirePh a' => if (a' =? a) && ap_phtimer ap0 then Some [GTimeout] else None
+      | OpFireState a' => if (a' =? a) && ap_statetimer ap0 && (ap_state ap0 =? ST_Completing) then Some [GStateTimeout] else None
+      | OpRelease a' k ty => if (a' =? a) && negb (k =? 0) && negb (st_malformed st) then Some [GRelease k ty] else None
+      | OpSched =>
+          match flat_map (fun e => match e with
+                                   | ERelease phk a' ty => if (a' =? a) && (ty =? TT_PlaceholderReplaced) then [phk] else []
+                                   | _ => [] end) (st_events st) with
+          | [phk] =>
+              match find_anyapp (st_obs st) a with
+              | Some ap => match find_alloc (ap_allocs ap) phk with
+                           | Some ph => match find_alloc (ap_requests ap) (oa_release ph) with
+                                        | Some r => Some [GSwap (oa_key r) phk (if oa_node r =? oa_node ph then None else Some (oa_node r))]
+                                        | None => None end
+                           | None => None end
+              | None => None end
+          | _ => None
+          end
+      | _ => None
+      end
+  end.
+
+Fixpoint grun_ev (s : gst) (ops : list gop) : option (gst * list gout) :=
+  match ops with
+  | [] => Some (s, [])
+  | o :: t => match gstep s o with
+              | GOk s1 ev => match grun_ev s1 t with Some (s2, l) => Some (s2, ev ++ l) | None => None end
+              | _ => None end
+  end.
+
+(* a mismatch inside the window of a recorded finding is reported under that finding *)
+Definition model_known (poison : list (N * N * N)) (pre : ostate) (st : ostep) (ap0 : oapp) : N :=
+  match st_op st with
+  | OpRelease a k ty =>
+      let linked := match find_alloc (ap_allocs ap0 ++ ap_requests ap0) k with Some o => oa_release o | None => 0 end in
+      let pk := poison_kind (a, k) poison in
+      let pl := poison_kind (a, linked) poison in
+      if negb (pk =? 0) then pk else if negb (pl =? 0) then pl
+      else if (ty =? TT_PlaceholderReplaced) && (ap_state ap0 =? ST_Completing) && negb (ap_statetimer ap0) then 651
+      else 0
+  | _ => 0
+  end.
+
+Definition c06_model_step (hards : list (N * bool)) (poison : list (N * N * N)) (pre : ostate) (st : ostep) : list N :=
+  flat_map (fun ap0 =>
+    let bad := let k := model_known poison pre st ap0 in if k =? 0 then [691] else [k] in
+    let a := ap_id ap0 in
+    match model_ops pre st a with
+    | None => []
+    | Some ops =>
+        let hard := match find (fun p => fst p =? a) hards with Some p => snd p | None => false end in
+        match grun_ev (proj06 pre ap0 hard) ops with
+        | None => bad
+        | Some (M, evs) =>
+            match find_anyapp (st_obs st) a with
+            | None => []        (* the application left the partition in this step *)
+            | Some ap =>
+                let V := proj06 (st_obs st) ap hard in
+                if gst_same (map on_id (s_nodes (st_obs st))) M V &&
+                   pairs_sub (mod_rel evs) (obs_rel a (st_events st)) && pairs_sub (obs_rel a (st_events st)) (mod_rel evs) &&
+                   pairs_sub (mod_new evs) (obs_new a (st_events st)) && pairs_sub (obs_new a (st_events st)) (mod_new evs)
+                then [] else bad
+            end
+        end
+    end) (s_apps pre).
+
 Fixpoint indexed {A} (i : N) (l : list A) : list (N * A) :=
   match l with [] => [] | a :: t => (i, a) :: indexed (i + 1) t end.
 
@@ -342,7 +455,7 @@ Fixpoint c06_steps (i : N) (hards : list (N * bool)) (poison : list (N * N * N))
       let poison' := new_poison pre st ++ poison in
       map (fun k => (i, k))
           (c06_swap_step st ++ c06_confirm_step pre st ++ c06_state poison' (st_obs st) ++
-           c06_timer_step hards' pre st ++ path_check pre st ++ counters_step pre st) ++
+           c06_timer_step hards' pre st ++ path_check pre st ++ counters_step pre st ++ c06_model_step hards' poison' pre st) ++
       c06_steps (i + 1) hards' poison' t
   end.
 
